@@ -127,13 +127,16 @@ class Interner:
 
     def code(self, s):
         if s not in self.s2i:
-            c = 1000 + len(self.s2i)
+            c = 10**12 + len(self.s2i)
             self.s2i[s] = c
             self.i2s[c] = s
         return self.s2i[s]
 
     def name(self, c):
         return self.i2s.get(c, c)
+
+
+GLOBAL_S = Interner()
 
 
 # ---- tables -----------------------------------------------------------------------------------------
@@ -163,6 +166,9 @@ class Table:
         t = Table.__new__(Table)
         t.name, t.keycols, t.domains, t.cols, t.ignored = self.name, self.keycols, self.domains, self.cols, self.ignored
         t.rows = {k: Row(k, r.present, dict(r.vals)) for k, r in self.rows.items()}
+        for a in ('consts', 'notnull', 'defaults'):
+            if hasattr(self, a):
+                setattr(t, a, getattr(self, a))
         return t
 
     def col(self, row, c):
@@ -177,7 +183,7 @@ class DB:
     def __init__(self, tables, all_columns, interner=None):
         self.t = {t.name: t for t in tables}
         self.allcols = all_columns  # table -> list of every real column name (for name resolution)
-        self.S = interner or Interner()
+        self.S = interner or GLOBAL_S
         self.env_constraints = []  # contracts of nondeterministic stubs (RAND range …)
         self.oob = False           # some write addressed a key outside the modelled key space
         self.err = {}              # kind -> condition under which a statement failed with that error
@@ -858,11 +864,13 @@ class Interp:
             pass
         total_inserted = 0
         total_changed = 0
+        affected = 0
         if rows is not None:
             for _, _, r in proposals:
                 vals = {c: self.ev(e, fr, None) for c, e in zip(cols, r)}
                 ins, chg = self.insert_one(tab, vals, odku, fr, guard, None, ignore)
                 total_inserted, total_changed = ins, chg
+                affected = affected + ite(ins, 1, 0)
         else:
             # INSERT … SELECT: row-at-a-time (S5): select-list side effects (@v := …) happen per produced row
             s = sel[1]
@@ -872,6 +880,7 @@ class Interp:
                     d = {col: v for col, (_, v) in zip(cols, vals)}
                     ins, chg = self.insert_one(tab, d, odku, fr, b_and(guard, c), sc, ignore)
                     total_inserted, total_changed = ins, chg
+                    affected = affected + ite(ins, 1, 0)
             else:
                 src = self.source_rows(s['from'], fr, None) if s['from'] is not None else [(True, [])]
                 for cond, binds in src:
@@ -886,6 +895,8 @@ class Interp:
                     d = {col: self.ev(e, fr, sc) for col, (e, _) in zip(cols, s['items'])}
                     ins, chg = self.insert_one(tab, d, odku, fr, b_and(guard, c), sc, ignore)
                     total_inserted, total_changed = ins, chg
+                    affected = affected + ite(ins, 1, 0)
+        db.last_affected = affected
         db.last_row_count = V(ite(total_inserted, 1, ite(total_changed, 2, 0))) if rows is not None and len(rows) == 1 \
             else V(db.fresh('row_count'))
 
